@@ -271,7 +271,7 @@ class C19(fw.Prop):
             "at every position (exception response, data notification, SET/ACTION answers, undecodable bytes, nothing); SET with every result code; ACTION "
             "with/without data, every status, error answers; associate accepted / rejected permanent / transient / exception / HLS with valid, invalid, "
             "unparsable proof and non-success status; sessions of up to 60 operations on one association; left part = what C19 demands for the answers "
-            "(Spec.Client), rest = the model's outcome, state, unconsumed answers and the decoded requests handed to the transport; ciphered sessions in which the meter's counter is at 2^31-4, 2^31, 0xC0000000, 2^32-5000; the meter's side uses harness/refcrypto.py; non-trivial = distinct session")
+            "(Spec.Client), rest = the model's outcome, state, unconsumed answers and the decoded requests handed to the transport; ciphered sessions in which the meter's counter is at 2^31-4, 2^31, 0xC0000000, 2^32-5000; the meter's side uses harness/refcrypto.py; meters that leave the envelope title empty; ciphered clients built through both alternative constructors; non-trivial = distinct session")
     trusted_base = ["extract.py (transition table)", "Spec.Client is my reading of C19's demands",
                     "protection is transparent in Model.Client (C04/C06/C07 are about it); the harness plays the meter with real AES-GCM"]
     assumptions = ["with ciphering, answers to the AARQ other than an AARE are outside the model (no meter title yet: the protection layer refuses them)",
